@@ -4,6 +4,7 @@ import (
 	"bytes"
 	"context"
 	"fmt"
+	"io"
 	"strings"
 	"testing"
 	"testing/synctest"
@@ -57,7 +58,14 @@ func exchange(e *env, lc *libConn) string {
 		comp := lc.Agreed.Deflate && i != 3
 		raw := m
 		if comp {
-			raw = def.Message(m, ref.DVSync)
+			// a foreign sender is free in how it flushes: sync flush, BFINAL=1 + 00, several flushes
+			raw = def.Message(m, []ref.DeflateVariant{ref.DVSync, ref.DVBFinal, ref.DVMultiFlush}[i%3])
+		}
+		if i%2 == 1 && len(raw) > 10 {
+			// ... and in how it fragments
+			p.send(ref.Frame{Fin: false, Opcode: ref.OpText, Rsv1: comp, Payload: raw[:len(raw)/2]})
+			p.send(ref.Frame{Fin: true, Opcode: ref.OpCont, Payload: raw[len(raw)/2:]})
+			continue
 		}
 		p.send(ref.Frame{Fin: true, Opcode: ref.OpText, Rsv1: comp, Payload: raw})
 	}
@@ -84,8 +92,20 @@ func exchange(e *env, lc *libConn) string {
 	// library -> peer
 	var werr error
 	d = e.Call(func() {
-		for _, m := range msgs {
-			if werr = conn.Write(ctx, websocket.MessageText, m); werr != nil {
+		for i, m := range msgs {
+			if i%2 == 0 {
+				werr = conn.Write(ctx, websocket.MessageText, m)
+			} else {
+				var w io.WriteCloser
+				if w, werr = conn.Writer(ctx, websocket.MessageText); werr == nil {
+					if _, werr = w.Write(m[:len(m)/3]); werr == nil {
+						if _, werr = w.Write(m[len(m)/3:]); werr == nil {
+							werr = w.Close()
+						}
+					}
+				}
+			}
+			if werr != nil {
 				return
 			}
 		}
